@@ -5,6 +5,7 @@ import math
 from builtins import isinstance as b_isinstance
 from collections.abc import Iterator
 from collections.abc import Iterable
+from collections.abc import Mapping
 
 from .alias_tracker import _ALIAS_TRACKER
 from .alias_tracker import AliasError
@@ -1855,9 +1856,11 @@ class _Date(Vector):
 
 	def __add__(self, other):
 		""" adding integers is adding days """
-		if isinstance(other, (list, tuple)) and other and all(y is None or (isinstance(y, int) and not isinstance(y, bool)) for y in other):
-			# a plain sequence of day counts is handled like a vector of them
-			other = Vector(other)
+		if isinstance(other, Iterable) and not isinstance(other, (Vector, str, bytes, bytearray, Mapping)):
+			# a plain sequence of day counts (list, tuple, range, deque, ...) is handled like a vector of them
+			other = list(other)
+			if other and all(y is None or (isinstance(y, int) and not isinstance(y, bool)) for y in other):
+				other = Vector(other)
 		if isinstance(other, Vector) and other.schema() is not None and other.schema().kind == int:
 			if len(self) != len(other):
 				raise ValueError(f"Length mismatch: {len(self)} != {len(other)}")
